@@ -20,14 +20,14 @@ def run(res, tier, only_case=None):
     rng = vlib.Rng(vlib.seed())
     res.rule = ("zstd files from the zck tool (3-5 chunks; no / raw / zstd-format dictionary; -u): every single-bit flip (quick: strided) of the stored bytes of "
                 "the first, a middle and the last chunk x buffer sizes {1, c-1, c, c+1, 32768} (c = declared size of the bad chunk), read to the error, "
-                "two more reads, close. non-trivial = corrupted chunk that still decompresses (to wrong data or the right length)")
+                "two more reads, close; the same damage met after pairing the context with the pristine copy (zck_find_matching_chunks) and, in files holding a chunk three times, in each copy separately with an intact copy streamed or requested first. non-trivial = corrupted chunk that still decompresses (to wrong data or the right length)")
     impl = vlib.ensure_harness("zh_c02", "asan")
     model = vlib.ensure_model("C02")
     wd = vlib.scratch("C15")
     items = []
     if only_case is not None:
         c = only_case["case"]
-        items = [(c.get("tag", "replay"), None, c.get("limit"), c.get("orig_hex"), c["line"])]
+        items = [(c.get("tag", "replay"), c.get("bad"), c.get("limit"), c.get("orig_hex"), c["line"], c.get("entries"))]
     else:
         bases = [b for b in c02.base_files(rng, wd, impl, tier, small_only=True) if b.h.comp == 2 and b.kind != "zstd+emptychunk"]
         quick = tier == "quick"
@@ -56,14 +56,52 @@ def run(res, tier, only_case=None):
                                 "g%d,e,g%d,e,g%d" % (k, k, k), "v,g%d,g%d" % (k, k)):
                         items.append(("%s:chunk%d/%d:bit%d:seq[%s]:oracle-only" % (b.kind, k, n - 1, bit, seq), k, before, b.content.hex(),
                                       "F %s %s" % (bytes(m).hex(), seq)))
+        # ---- the mark 'valid' must not stand in for the checksum -------------------------------------------------
+        # (a) the damaged file is first paired with its pristine copy (zck_find_matching_chunks marks chunks valid
+        #     from an index comparison alone); (b) files that hold the same chunk three times, damage in each copy
+        #     separately, an intact copy read or requested before on the same context.  Oracle: generic (below);
+        #     the model handles M as a no-op on the reader state, so these cases are also compared with it.
+        dups = [b for b in c02.dup_files(rng, wd) if b.h.comp == 2]
+        nflip = 12 if quick else 400
+        for b in bases + dups:
+            n = len(b.h.chunks)
+            isdup = b.kind.startswith("zstd-dup")
+            ks = [1, 3, 5] if isdup else (sorted(set([1, n // 2, n - 1])) if n > 1 else [])
+            ent = ["%d/%s" % (len(e), c02.h16(e)) for e in b.entries]
+            for k in ks:
+                c = b.h.chunks[k][3]
+                before = sum(x[3] for x in b.h.chunks[1:k])
+                nbits = b.h.chunks[k][2] * 8
+                step = max(1, nbits // nflip)
+                for fi, bit in enumerate(range(rng.randrange(step), nbits, step)):
+                    m = bytearray(b.f)
+                    m[b.lead + b.starts[k] + bit // 8] ^= 1 << (bit % 8)
+                    mh, ph = bytes(m).hex(), b.f.hex()
+                    sizes = [1, max(1, c - 1), c, c + 1, 32768]
+                    twins = [j for j in range(1, n) if j != k and b.h.chunks[j] == b.h.chunks[k]]
+                    other = twins[fi % len(twins)] if twins else 1 + (k % (n - 1))
+                    seqs = ["M%s,R%d,r%d,r%d,q" % (ph, sizes[fi % 5], sizes[fi % 5], sizes[fi % 5]),
+                            "M%s,g%d,g%d" % (ph, k, other), "M%s,g%d,g%d,P%d:%d" % (ph, other, k, k, c + 2),
+                            "f,M%s,R%d,q" % (ph, sizes[(fi + 1) % 5])]
+                    if isdup:
+                        seqs += ["R%d,r%d,r%d,q" % (s_, s_, s_) for s_ in (sizes if not quick else [sizes[fi % 5], sizes[(fi + 3) % 5]])]
+                        upto = sum(x[3] for x in b.h.chunks[1:twins[0] + 1]) if twins and twins[0] < k else 0
+                        seqs += ["g%d,g%d" % (j, k) for j in twins] + ["g%d,g%d,g%d,g%d" % (twins[0], twins[-1], k, twins[0]),
+                                                                       "P%d:%d,g%d" % (twins[0], c + 3, k)]
+                        if upto:
+                            seqs.append("r%d,g%d" % (upto, k))      # the intact first copy streamed, then the bad one requested
+                    for sq in seqs:
+                        tg = "%s:chunk%d/%d:bit%d:seq[%s]:generic" % (b.kind, k, n - 1, bit, sq if len(sq) < 40 else sq[:1] + ".." + sq[-30:])
+                        items.append((tg, k, before, b.content.hex(), "F %s %s" % (mh, sq), ent))
+    items = [it if len(it) == 6 else it + (None,) for it in items]
     lines = [it[4] for it in items]
     io, mo, ierrs = c02.run_both(lines, wd, impl, model)
     errmap = dict(ierrs)
-    for k, ((tag, ck, limit, orig_hex, line), i, m) in enumerate(zip(items, io, mo)):
+    for k, ((tag, ck, limit, orig_hex, line, ent), i, m) in enumerate(zip(items, io, mo)):
         res.evaluations += 1
         mres, spec = vlib.split_model(m)
         key = "c15:%s:%s" % (tag.split(":")[0], hashlib.sha256(line.encode()).hexdigest()[:12])
-        case = {"line": line, "tag": tag, "impl": i, "model": mres, "limit": limit, "orig_hex": orig_hex}
+        case = {"line": line, "tag": tag, "impl": i, "model": mres, "limit": limit, "orig_hex": orig_hex, "bad": ck, "entries": ent}
         if c02.crashed(i):
             if i != "NOTRUN":
                 res.violation("oracle", key, "reading a file with a corrupted chunk ends in %s %s" % (i, vlib.san_summary(errmap.get(k, ""))), case)
@@ -77,6 +115,55 @@ def run(res, tier, only_case=None):
                 res.count("still-decompresses")
             else:
                 res.count("decoder-error")
+        if tag.endswith(":generic"):
+            # generic oracle over any op sequence: bytes handed out by successful zck_read calls, in order, are a
+            # prefix of the original content that ends before the corrupted chunk; a request for the corrupted chunk
+            # never returns data; a request for another chunk returns that chunk; close never succeeds
+            res.count("generic:" + ("dup" if "-dup" in tag else "paired"))
+            if toks and toks[0] == "open=1" and limit is not None and orig_hex is not None and ent is not None:
+                orig = bytes.fromhex(orig_hex)
+                ops = line.split()[2].split(",")
+                pos, bad = 0, None
+                for o, t in zip(ops, toks[1:]):
+                    if "=" not in t:
+                        continue
+                    val = t.split("=", 1)[1].split("!")[0].split("/")
+                    if o[0] in "Rr":
+                        nb = int(val[1])
+                        if nb > 0:
+                            if pos + nb > limit:
+                                bad = "%s (%s) hands out stream bytes %d..%d although only %d precede the corrupted chunk" % (o[:12], t[:14], pos, pos + nb, limit)
+                                break
+                            if val[2] != c02.h16(orig[pos:pos + nb]):
+                                bad = "%s hands out bytes that are not the original content at offset %d" % (o[:12], pos)
+                                break
+                            pos += nb
+                        if o[0] == "R" and val[0] == "0":
+                            bad = "the stream ends with success although a chunk is corrupted"
+                            break
+                    elif o[0] in "gGP" and "nochunk" not in t:
+                        j = int(o[1:].split(":")[0])
+                        ret = int(val[0])
+                        if ret > 0 and j == ck:
+                            bad = "a request for the corrupted chunk %d (after %s) returns %d bytes" % (j, ",".join(x[:12] for x in ops[:ops.index(o)]) or "nothing", ret)
+                            break
+                        if ret > 0 and j != ck:
+                            got = "%d/%s" % (min(ret, int(ent[j].split("/")[0])), val[3] if o[0] == "P" else val[2])
+                            if (o[0] != "G") and got != ent[j]:
+                                bad = "a request for the intact chunk %d returns %s instead of %s" % (j, got, ent[j])
+                                break
+                    elif o[0] == "q" and t.startswith("q=1"):
+                        bad = "zck_close succeeds on a file with a corrupted chunk"
+                        break
+                if bad:
+                    res.violation("oracle", key, "corrupted chunk (%s): %s" % (tag, bad), case)
+                    continue
+            if "f," in line.split()[2] or line.split()[2].startswith("f"):
+                continue        # zck_find_valid_chunks is not modelled
+            if i != mres:
+                res.violation("correspondence", key.replace(":", "-corr:", 1),
+                              "CompRead model and the library disagree (%s): model %s.. code %s.." % (tag, mres[:150], i[:150]), case)
+            continue
         if tag.endswith(":oracle-only"):
             # generic oracle: the bytes handed out by successful reads, in order, are a prefix of the original content
             # that ends before the corrupted chunk; a direct request for the corrupted chunk never returns data
